@@ -12,3 +12,5 @@ import TlxVerif.Props.C10
 #print axioms TlxVerif.C10.pool_thrown_jobs_counted
 #print axioms TlxVerif.C10.pool_done_le_destroyed
 #print axioms TlxVerif.C10.pool_destroy_job_point
+#print axioms TlxVerif.C10.pool_terminate_under_mutex
+#print axioms TlxVerif.C10.pool_pick_under_mutex
